@@ -1,7 +1,7 @@
 (* C16: converting the exported configuration again reproduces it (second round trip is stable), over the reals.
    Uses: round4 idempotent, angle normalisation is the identity on its range, -|z| = z for z <= 0, x*u/u = x. *)
 From Coq Require Import Reals QArith Qreals Lra Lia ZArith String List Bool.
-From SpdVerif Require Import Base.Rx Base.NumOps Model.NumInst Spec.ConfigSpec Gen.ConfigTables Spec.ConfigUnits
+From SpdVerif Require Import Base.Rx Base.CfgNumOps Model.NumInst Spec.ConfigSpec Gen.ConfigTables Spec.ConfigUnits
   Model.ConfigTypes Model.Config Gen.ConfigConv Proofs.C16_round Proofs.C16_roundtrip.
 Import ListNotations.
 Local Open Scope R_scope.
